@@ -3,8 +3,26 @@ primitives of src/poly_mod/prim.rs they are built from."""
 from lib import line, Id, Case
 from props.polymod_common import *
 
-PROVED = []
-NOT_PROVED = ['irreducibility and pairwise distinctness of the returned factors (squarefree + distinct-degree correctness in general)',
+PROVED = ['[P] modpow_spec / modpow_cong / modpow_total: modpow = x^e mod m (all x, e >= 0, m <> 0)',
+          '[P] poly_mod_reduced / poly_mod_nth: canonical output, coefficients in [0,p), coefficientwise reduction',
+          '[P] poly_divrem_spec + poly_divrem_total (p prime, lc(b) not divisible by p): a = q b + r mod p, deg r < deg b, q and r reduced; '
+          'uses Fermat\'s little theorem over Z (transferred from MathComp fermat_little) for modinv = x^(p-2)',
+          '[P] poly_gcd_spec: the gcd of reduced polynomials is reduced and divides both arguments modulo p',
+          '[P] poly_gcd_total / poly_ext_gcd_total: the supplied fuel suffices on reduced arguments (deterministic termination)',
+          '[P] poly_modpow_spec: for e > 0 the result is x^e modulo (g, p), reduced',
+          '[P] factorize_normalised: for every prime p, f, pusize >= 0, draw stream and profile: if factorize_mod_p returns, every g_i is monic, canonical, '
+          'with coefficients in [0,p) and degree >= 1; e_i >= 1 in the dev profile (structural invariants: all intermediate polynomials reduced and non-zero)',
+          '[P] final_split_product: equal-degree stage (Cantor-Zassenhaus for every draw stream, and the p = 2 branch): if it returns, the product of the pieces is the input mod p, all pieces reduced and non-zero',
+          '[P] degree_product: distinct-degree stage: the product of the parts is the input up to a unit constant',
+          '[B] factorize_mod_2_small: every non-zero f over F_2 of degree <= 8: the model returns without panic/draws and the answer passes an '
+          'independent exhaustive-search check of all clauses (monic, irreducible, distinct, multiplicities, product)',
+          '[B] pusize_irrelevant_small / pusize_irrelevant_big: p > deg f (all f over F_5 deg <= 4, F_7 deg <= 3; p = nextprime(2^64), '
+          'coefficients in {0,1,2}, deg <= 2): squarefree returns the same for every pusize tried incl. 0, no panic',
+          '[P] squarefree_zero_panics']
+NOT_PROVED = ['e_i >= 1 in the release profile (a wrapped e *= pusize can be 0 for absurd pusize)',
+              'irreducibility and pairwise distinctness of the returned factors, product congruence for all inputs '
+              '(squarefree + distinct-degree + equal-degree correctness in general)',
+              'pusize irrelevance for all p > deg f (only the bounded [B] statements)',
               'termination for all draw streams (false: only with probability 1)']
 RULE = ('factorize_mod_p on every coefficient vector up to a degree bound over F_2, F_3, F_5, F_7 (pusize = p); random and structured '
         'polynomials of degree <= 12 (thorough: 16) over p in {11, 13, 101, 65537, 2^61-1, nextprime(2^64)}: planted products of distinct '
@@ -13,8 +31,8 @@ RULE = ('factorize_mod_p on every coefficient vector up to a degree bound over F
         'separately; non-trivial = f mod p non-constant. Random draws of the implementation are logged and replayed by the model.')
 CLAIM = dict(
     technique='Coq proof about the Gallina model of src/poly_mod/{prim,factorize_mod_p}.rs + extracted-model-vs-implementation correspondence with replayed random draws + independent oracle',
-    text='Theorems in coq/Props/C08.v; the model is tied to /repo by running the extracted model and impl_svc on the same inputs and the same random bytes.',
-    note='Irreducibility/distinctness of the output is not proved in general (checked by the independent oracle on every explored input); termination holds with probability 1 only.',
+    text='Proved for all inputs: the arithmetic layer (modpow, poly_mod, poly_divrem for prime p, poly_gcd divides) and the normalisation clause of the factoriser (monic, reduced, degree >= 1, multiplicity >= 1). Proved on bounded domains by vm_compute: full correctness of factorize_mod_p over F_2 up to degree 8, independence of pusize for p > deg f. The model is tied to /repo by running the extracted model and impl_svc on the same inputs and the same random bytes.',
+    note='Not proved for all inputs: irreducible/distinct/product clauses of the factoriser (checked by the independent oracle on every explored input, always_oracle); termination holds with probability 1 only.',
     ref='DESIGN.md section 4, C08')
 TIMEOUT = 1200
 
@@ -170,10 +188,10 @@ def cases(rng, tier):
     maxdeg = 16 if th else 12
     for p in [2, 3, 5, 7] + PRIMES_BIG:
         reps = (60 if th else 14) if p <= 7 else (160 if th else 34)
-        if p.bit_length() > 60 and not th: reps = 16
+        if p.bit_length() > 60: reps = 40 if th else 16
         for _ in range(reps):
             # the extracted model computes on Coq's binary Z: 64-bit primes are slow, keep the quick tier small there
-            md = min(maxdeg, 12) if p <= 7 else maxdeg if (th or p.bit_length() <= 60) else 7
+            md = min(maxdeg, 12) if p <= 7 else maxdeg if p.bit_length() <= 60 else 10 if th else 7
             kind, f = structured(rng, p, md)
             pus = pusizes(rng, f, p)
             if not pus: continue
@@ -202,8 +220,8 @@ def cases(rng, tier):
         out.append(fac_case(rng, f, p, p, 'modulus-outside', nontrivial=False))
     # ---- stages
     for p in [2, 3, 5, 7, 11, 101, 2 ** 61 - 1, PRIMES_BIG[-1]]:
-        for _ in range(30 if th else 8 if p.bit_length() <= 60 else 3):
-            kind, f = structured(rng, p, 10 if (th or p.bit_length() <= 60) else 6)
+        for _ in range((30 if th else 8) if p.bit_length() <= 60 else (10 if th else 3)):
+            kind, f = structured(rng, p, 10 if p.bit_length() <= 60 else 8 if th else 6)
             pu = rng.choice(pusizes(rng, f, p))
             if red(f, p):
                 out.append(Case('pm_squarefree', line('pm_squarefree', f, p, pu), oracle=o_squarefree(f, p), tag='squarefree'))
